@@ -59,7 +59,8 @@ def build_file_model(world, placement, sched, disk=None, circular=False,
     if own:
         disk = SimDisk().install()
         for name, data in xlsx_books(
-                world, placement, sched.get('sheet_orders')).items():
+                world, placement, sched.get('sheet_orders'),
+                extlinks=sched.get('extlinks', False)).items():
             disk.put(name, data)
     ex = None
     if sched.get('exec_seed') is not None:
